@@ -82,19 +82,19 @@ def blocks(out):
 
 RULE_POOL = [
     ("", 'rule r_text : tagA tagB { meta: author = "x" n = 3 strings: $a = "needle" $b = "NEEDLE" nocase wide condition: any of them }'),
-    ("", 'rule r_xor : tagB { strings: $x = "secret" xor(1-255) condition: $x }'),
+    ("", 'rule r_xor : tagB { meta: family = "xored" score = 70 strings: $x = "secret" xor(1-255) condition: $x }'),
     ('import "pe"', 'rule r_pe : tagA { condition: pe.is_pe }'),
     ('import "elf"', 'rule r_elf { condition: defined elf.type }'),
     ("", 'rule r_ep { condition: defined entrypoint }'),
     ("", 'rule r_hex { strings: $h = { 4D 5A ?? ?? } condition: $h at 0 }'),
     ("", 'rule r_many { strings: $a = "aa" condition: #a > 3 }'),
-    ("", 'rule r_empty { condition: filesize == 0 }'),
+    ("", 'rule r_empty { meta: note = "empty file" flag = true condition: filesize == 0 }'),
     ("", 'rule r_many2 { strings: $a = "go" condition: #a == 3 }'),
     ("", 'rule r_re { strings: $r = /ne+dle[0-9]?/ condition: $r }'),
     ("", 'private rule p_hidden { condition: filesize > 10 } rule r_uses_private { condition: p_hidden and filesize < 100000 }'),
     ("", 'global rule g_small { condition: filesize < 400000 }'),
     ('import "hash"', 'rule r_hash { condition: hash.md5(0, filesize) == "d41d8cd98f00b204e9800998ecf8427e" }'),
-    ('import "math"', 'rule r_math { condition: math.entropy(0, filesize) > 4.0 }'),
+    ('import "math"', 'rule r_math { meta: what = "high entropy" condition: math.entropy(0, filesize) > 4.0 }'),
 ]
 
 # always part of the rule set: every external type decides something
@@ -266,6 +266,18 @@ def check_case(c):
             has_err = any(l.startswith("error") for l in err.split("\n"))
             if (rc != 0) != has_err:
                 raise Violation("yara -C: exit status %d, stderr: %s" % (rc, err[-300:]))
+        # everything the tool can print about a match (-s -m -g -e: strings, metas, tags, namespace), once
+        # more from the source rules and from the compiled rules
+        full = ["-s", "-m", "-g", "-e", "-w"]
+        rc, out_src, err = run([YARA] + full + ext + dir_args + ["-p", "1"] + rule_args + [root])
+        rc, out, err = run([YARAC] + ext + rule_args + [yarc])
+        if rc != 0:
+            raise Violation("yarac failed on rules that yara accepts: " + err[-400:])
+        rc, out_bin, err = run([YARA] + full + dir_args + ["-p", "1", "-C", yarc, root])
+        if collections.Counter(blocks(out_src)) != collections.Counter(blocks(out_bin)):
+            a, b = collections.Counter(blocks(out_src)), collections.Counter(blocks(out_bin))
+            raise Violation("yara -s -m -g -e prints something else from compiled rules than from the source rules: missing e.g. %r; unexpected e.g. %r"
+                            % (list((a - b).elements())[:2], list((b - a).elements())[:2]))
         # statistics
         kinds = {k for k, _, _ in c["files"]}
         multi_line = any(o in ("-s", "-L", "-X") for o in c["opts"])
